@@ -134,6 +134,17 @@ Theorem C04_lindell22_partial_r_bound : forall A : alg,
 Proof. exact aggregate_r_bound. Qed.
 Print Assumptions C04_lindell22_partial_r_bound.
 
+(* the challenge field E of ONE partial signature altered (R_i, s_i unchanged): Aggregate compares
+   the E of every partial signature with the recomputed challenge, so it refuses *)
+Theorem C04_lindell22_partial_e_bound : forall (A : alg),
+  (forall a b : car A, aeqb A a b = true <-> a = b) ->
+  forall (chal : car A -> car A) (x : car A) (ps1 : list (N * psig A)) (id : N) (p : psig A)
+         (ps2 : list (N * psig A)) (e' r s : car A),
+  aggregate A chal x (ps1 ++ (id, p) :: ps2) = Some (r, s) -> e' <> p_e A p ->
+  aggregate A chal x (ps1 ++ (id, mkP A e' (p_r A p) (p_s A p)) :: ps2) = None.
+Proof. exact aggregate_e_bound. Qed.
+Print Assumptions C04_lindell22_partial_e_bound.
+
 Theorem C04_boldyreva_bound_field_detected : forall A : alg,
   (forall a b : car A, aeqb A a b = true <-> a = b) ->
   forall (st : bst A) (d : N) (sg sg' : car A) (inbox : list (N * car A)),
